@@ -101,7 +101,7 @@ static inline Song gen_song(Rng &r, const SongOpts &o)
             if(p < 0.35) dt = 0;
             else if(p < 0.8) dt = (uint32_t)r.range(1, std::max(1, s.division / 2));
             else if(p < 0.97 || !o.big_deltas) dt = (uint32_t)r.range(1, std::max(2, s.division * 3));
-            else dt = (uint32_t)r.range(1, 200000);
+            else dt = r.chance(0.6) ? (uint32_t)r.range(1, 200000) : (uint32_t)r.range(0x1FFFF0, 0x300000);      // also four-byte variable-length quantities
             tick += dt;
             int ci = r.below(2);
             uint8_t ch = (uint8_t)chans[ci];
